@@ -74,6 +74,11 @@ func TestC02Lab(t *testing.T) {
 type c02Op struct {
 	Op  string `json:"op"`
 	Arg int    `json:"arg,omitempty"`
+	// Src: which of the two sources an "ack" is for. Target: "" = a "failset" counts the writes of
+	// every connector, "src0"/"src1" = only the writes of that connector's document (the other
+	// connector of the same flush is written successfully).
+	Src    int    `json:"src,omitempty"`
+	Target string `json:"target,omitempty"`
 }
 
 type c02Replay struct {
@@ -89,11 +94,14 @@ type c02Replay struct {
 // runC02Direct executes an op list against a real connector.Source and returns the world log + violations.
 func runC02Direct(delayMs, bundle int, ops []c02Op, sendFail ...int) ([]lab.Event, []lab.Violation, map[string]int) {
 	const total = 400
+	const nSrc = 2
 	c := &lab.Case{
 		Engine: "v1", PersistDelayMs: delayMs, PersistBundle: bundle,
 		Recovery: lab.RecoverySpec{MinMs: 1, MaxMs: 2, Factor: 2},
-		Sources:  []lab.SourceSpec{{ID: "src0", N: total, Batches: []int{total}, ReadFaultAfter: -1, EmptyPosAt: -1, DupPosAt: -1, AckSendFail: sendFail}},
-		Dests:    []lab.DestSpec{{ID: "dst0"}},
+		Sources: []lab.SourceSpec{
+			{ID: "src0", N: total, Batches: []int{total}, ReadFaultAfter: -1, EmptyPosAt: -1, DupPosAt: -1, AckSendFail: sendFail},
+			{ID: "src1", N: total, Batches: []int{total}, ReadFaultAfter: -1, EmptyPosAt: -1, DupPosAt: -1}},
+		Dests: []lab.DestSpec{{ID: "dst0"}},
 	}
 	w := lab.NewWorld(c, nil, nil)
 	w.Sched.SetFree()
@@ -102,39 +110,42 @@ func runC02Direct(delayMs, bundle int, ops []c02Op, sendFail ...int) ([]lab.Even
 	if err := w.Provision(ctx); err != nil {
 		return w.Log.Snapshot(), []lab.Violation{{Prop: "C02", Key: "C02/harness/provision", Detail: err.Error()}}, stats
 	}
-	inst, _ := w.Connectors.Get(ctx, "src0")
 	var (
-		src     *connector.Source
+		srcs    [nSrc]*connector.Source
 		errMu   sync.Mutex
 		errs    []error
 		stopErr chan struct{}
-		next    = 0 // next seq to ack
+		next    [nSrc]int // next seq to ack, per source
 		open    = false
 	)
 	openSrc := func() error {
-		conn, err := inst.Connector(ctx, w.Plugins)
-		if err != nil {
-			return err
-		}
-		src = conn.(*connector.Source)
-		if err := src.Open(ctx); err != nil {
-			return err
+		stopErr = make(chan struct{})
+		for i := 0; i < nSrc; i++ {
+			id := fmt.Sprintf("src%d", i)
+			inst, _ := w.Connectors.Get(ctx, id)
+			conn, err := inst.Connector(ctx, w.Plugins)
+			if err != nil {
+				return err
+			}
+			srcs[i] = conn.(*connector.Source)
+			if err := srcs[i].Open(ctx); err != nil {
+				return err
+			}
+			go func(s *connector.Source, stop chan struct{}, id string) {
+				for {
+					select {
+					case e := <-s.Errors():
+						errMu.Lock()
+						errs = append(errs, e)
+						errMu.Unlock()
+						w.Log.Add(lab.Event{Kind: lab.EvNote, Comp: id, Src: -1, Seq: -1, Info: "source-error: " + e.Error()})
+					case <-stop:
+						return
+					}
+				}
+			}(srcs[i], stopErr, id)
 		}
 		open = true
-		stopErr = make(chan struct{})
-		go func(s *connector.Source, stop chan struct{}) {
-			for {
-				select {
-				case e := <-s.Errors():
-					errMu.Lock()
-					errs = append(errs, e)
-					errMu.Unlock()
-					w.Log.Add(lab.Event{Kind: lab.EvNote, Comp: "src0", Src: -1, Seq: -1, Info: "source-error: " + e.Error()})
-				case <-stop:
-					return
-				}
-			}
-		}(src, stopErr)
 		// The connector instance keeps its in-memory state across a reopen (that is what a
 		// recovery restart in the same process sees), so acks continue where the last
 		// successful Ack call left off.
@@ -144,7 +155,9 @@ func runC02Direct(delayMs, bundle int, ops []c02Op, sendFail ...int) ([]lab.Even
 		if !open {
 			return
 		}
-		_ = src.Teardown(ctx)
+		for i := 0; i < nSrc; i++ {
+			_ = srcs[i].Teardown(ctx)
+		}
 		close(stopErr)
 		open = false
 	}
@@ -195,18 +208,23 @@ func runC02Direct(delayMs, bundle int, ops []c02Op, sendFail ...int) ([]lab.Even
 			txnStall = time.Duration(op.Arg) * time.Millisecond
 			txnGateMu.Unlock()
 		case "ack":
-			if !open || next+op.Arg > total {
+			si := op.Src
+			if si < 0 || si >= nSrc {
+				si = 0
+			}
+			if !open || next[si]+op.Arg > total {
 				continue
 			}
+			id := fmt.Sprintf("src%d", si)
 			ps := make([]opencdc.Position, op.Arg)
 			for i := range ps {
-				ps[i] = opencdc.Position(lab.PosOf(0, next+i))
+				ps[i] = opencdc.Position(lab.PosOf(si, next[si]+i))
 			}
-			w.Log.Add(lab.Event{Kind: lab.EvNote, Comp: "src0", Src: 0, Seq: next + op.Arg - 1, Info: fmt.Sprintf("engine-ack n=%d", op.Arg)})
-			if err := src.Ack(ctx, ps); err == nil {
-				next += op.Arg
+			w.Log.Add(lab.Event{Kind: lab.EvNote, Comp: id, Src: si, Seq: next[si] + op.Arg - 1, Info: fmt.Sprintf("engine-ack n=%d", op.Arg)})
+			if err := srcs[si].Ack(ctx, ps); err == nil {
+				next[si] += op.Arg
 			} else {
-				w.Log.Add(lab.Event{Kind: lab.EvNote, Comp: "src0", Src: -1, Seq: -1, Info: "engine-ack-error: " + err.Error()})
+				w.Log.Add(lab.Event{Kind: lab.EvNote, Comp: id, Src: -1, Seq: -1, Info: "engine-ack-error: " + err.Error()})
 			}
 		case "sleepshort":
 			time.Sleep(delay / 4)
@@ -215,7 +233,7 @@ func runC02Direct(delayMs, bundle int, ops []c02Op, sendFail ...int) ([]lab.Even
 		case "flush":
 			w.Persister.Flush(ctx)
 		case "failset":
-			w.DB.Arm(lab.Fault{Kind: lab.FaultSet, Index: op.Arg, KeyPrefix: "connector:instance:"})
+			w.DB.Arm(lab.Fault{Kind: lab.FaultSet, Index: op.Arg, KeyPrefix: "connector:instance:" + op.Target})
 		case "failcommit":
 			w.DB.Arm(lab.Fault{Kind: lab.FaultCommit, Index: op.Arg})
 		case "failnewtxn":
@@ -293,7 +311,7 @@ func genC02OpsN(t *rapid.T, n int, allowLong bool) []c02Op {
 		k := rapid.IntRange(0, 99).Draw(t, "op")
 		switch {
 		case k < 45:
-			ops = append(ops, c02Op{Op: "ack", Arg: rapid.IntRange(1, 4).Draw(t, "k")})
+			ops = append(ops, c02Op{Op: "ack", Arg: rapid.IntRange(1, 4).Draw(t, "k"), Src: rapid.IntRange(0, 1).Draw(t, "acksrc")})
 		case k < 55:
 			ops = append(ops, c02Op{Op: "sleepshort"})
 		case k < 65:
@@ -301,7 +319,8 @@ func genC02OpsN(t *rapid.T, n int, allowLong bool) []c02Op {
 		case k < 72:
 			ops = append(ops, c02Op{Op: "flush"})
 		case k < 78:
-			ops = append(ops, c02Op{Op: "failset", Arg: rapid.IntRange(0, 2).Draw(t, "idx")})
+			ops = append(ops, c02Op{Op: "failset", Arg: rapid.IntRange(0, 2).Draw(t, "idx"),
+				Target: []string{"", "src0", "src1", "src0"}[rapid.IntRange(0, 3).Draw(t, "failtarget")]})
 		case k < 84:
 			ops = append(ops, c02Op{Op: "failcommit", Arg: rapid.IntRange(0, 2).Draw(t, "idx")})
 		case k < 87:
@@ -410,7 +429,7 @@ func TestC02Stall(t *testing.T) {
 			case 1:
 				ops = append(ops, c02Op{Op: "sleeplong"})
 			default:
-				ops = append(ops, c02Op{Op: "ack", Arg: rapid.IntRange(1, 4).Draw(t, "k")})
+				ops = append(ops, c02Op{Op: "ack", Arg: rapid.IntRange(1, 4).Draw(t, "k"), Src: rapid.IntRange(0, 1).Draw(t, "acksrc")})
 			}
 		}
 		ops = append(ops, post...)
